@@ -10,6 +10,33 @@ import tlc
 JVM = ["-Xss1g", "-Dtlc2.tool.queue.IStateQueue=StateDeque"]
 
 
+def exercised(trace_path, acc=None):
+    """non-vacuity: how often the recorded executions contain what the property predicates talk about"""
+    acc = acc if acc is not None else {}
+
+    def bump(k, n=1):
+        acc[k] = acc.get(k, 0) + n
+    with open(trace_path) as f:
+        for line in f:
+            l = json.loads(line)
+            a = l.get("a")
+            if a == "Reset":
+                bump("executions")
+                continue
+            bump("action:" + a + (":" + l["c"] if a in ("S_Cmd", "R_Cmd") else ""))
+            if l.get("epi"):
+                bump("epilogue_steps")
+            for p in l.get("out", []):
+                bump("pdu_out:" + p["k"])
+            for x in l.get("ind", []):
+                bump("indication:" + x["k"] + (":" + x["cond"] if x["k"] in ("Fault", "Abandon") and "cond" in x else ""))
+                if x["k"] == "Finished" and x.get("cond") == "NoError" and x.get("deliv") == "Complete":
+                    bump("success_indications")
+            if a == "Deliver" and l.get("idx", 1) > 1:
+                bump("reordered_deliveries")
+    return acc
+
+
 def _shard(args):
     scripts_path, trace_path, tlcdir = args
     p = subprocess.run([os.path.join(common.BIN, "replay_t"), scripts_path, trace_path],
@@ -27,7 +54,7 @@ def _shard(args):
     if consumed is None or consumed[0] != consumed[1]:
         tail = "\n".join(r.text.splitlines()[-30:])
         raise common.ToolError("trace %s not fully consumed by the monitor: %s\n%s" % (trace_path, consumed, tail))
-    return viol, consumed[1], r.wall
+    return viol, consumed[1], r.wall, exercised(trace_path)
 
 
 def run_scripts(scripts, workdir, shards=12, keep=True):
@@ -45,16 +72,18 @@ def run_scripts(scripts, workdir, shards=12, keep=True):
             for s in part:
                 f.write(json.dumps(s) + "\n")
         jobs.append((sp, os.path.join(workdir, "trace-%d.ndjson" % k), os.path.join(workdir, "tlc-%d" % k)))
-    viols, drifts, events = [], [], 0
+    viols, drifts, events, exer = [], [], 0, {}
     with cf.ThreadPoolExecutor(max_workers=shards) as ex:
-        for v, n, wall in ex.map(_shard, jobs):
+        for v, n, wall, ex1 in ex.map(_shard, jobs):
             events += n
+            for k, c in ex1.items():
+                exer[k] = exer.get(k, 0) + c
             for tag, x in v:
                 if tag == "DRIFT":
                     drifts.append({"id": x[0], "line": x[1], "action": x[2], "parts": sorted(x[3])})
                 else:
                     viols.append({"kind": tag, "id": x[0], "line": x[1], "tag": x[2], "sig": x[3] if len(x) > 3 else ""})
-    return viols, {"scripts": len(scripts), "events": events, "shards": shards, "drift": drifts}
+    return viols, {"scripts": len(scripts), "events": events, "shards": shards, "drift": drifts, "exercised": exer}
 
 
 def trace_of(workdir, script_id):
